@@ -8,9 +8,9 @@ CONSTANTS
   Emit = TRUE
   KnownClasses = {}
   Rich = TRUE
-  Dev_gram = TRUE
   SingleRangeStr = FALSE
   Styles <- CanonOnly
+  Dev_gram <- GramAsIs
   BaseVal <- BaseMid
 INVARIANTS Refines RefinesExceptKnown SegmentationOK MapsOK DomainOK BuildForm EmitInv
 CHECK_DEADLOCK FALSE
